@@ -91,6 +91,23 @@ func (st *programState) runBalancesQuery() error {
 	// reset batch query
 	st.CurrentBalanceQuery = BalanceQuery{}
 
+	// what was learnt from earlier queries must not be forgotten:
+	// the store may answer with just the pairs of this query
+	merged := Balances{}
+	for account, fetchedBalances := range balances {
+		mergedAccount := defaultMapGet(merged, account, func() AccountBalance { return AccountBalance{} })
+		for asset, amount := range fetchedBalances {
+			mergedAccount[asset] = amount
+		}
+	}
+	for account, cachedBalances := range st.CachedBalances {
+		mergedAccount := defaultMapGet(merged, account, func() AccountBalance { return AccountBalance{} })
+		for asset, amount := range cachedBalances {
+			mergedAccount[asset] = amount
+		}
+	}
+	balances = merged
+
 	st.CachedBalances = balances
 	return nil
 }
